@@ -3,9 +3,11 @@ C30 — unary-node detection is exact.
 
 A  theorems in Props/C30 (sweep detector = "some unmasked node has exactly one child somewhere", for every
    mask; tree-iterator detector = the same without mask; the two agree; masking only removes rejections).
+   Wrapper level: `contains_unary_nodes(ts, skip_samples=True)` = some node with the sample bit (bit 0 of flags)
+   clear is unary somewhere, whatever the other flag bits (`wrapper_spec`, `wrapper_ignores_other_bits`).
 B  Lean models (Float positions) vs the real `_contains_unary_nodes` kernel (tskit's indexes and
    tie-shuffled valid indexes; sample mask, empty mask, random masks), vs `contains_unary_nodes(ts,
-   skip_samples)` and vs `prior.has_locally_unary_nodes(ts)`.
+   skip_samples)` (wrapper model: flags column -> mask -> sweep) and vs `prior.has_locally_unary_nodes(ts)`.
 C  oracle: naive scan of every local tree (num_children_array over all nodes) against both detectors,
    and against what `date()` does with allow_unary=False for the three methods.
 """
@@ -16,7 +18,7 @@ from .. import common, dating, gen, sweep_corr as sc
 from ..common import Result, Violation
 
 META = dict(
-    level='Lean theorems, for all valid edge tables/indexes and all masks: the two-pointer sweep of `_contains_unary_nodes` terminates and returns True iff at some position an unmasked node has exactly one child; `has_locally_unary_nodes` (under tskit iterator contract) is True iff some node has exactly one child somewhere; the detectors agree without mask; masked rejection implies unmasked rejection. Models tied to the numba kernel / Python detector by exact correspondence on serialised tskit tables; date() rejection behaviour checked by oracle. Full for the detectors; the wiring date() -> detector is by oracle only.',
+    level='Lean theorems, for all valid edge tables/indexes and all masks: the two-pointer sweep of `_contains_unary_nodes` terminates and returns True iff at some position an unmasked node has exactly one child; `has_locally_unary_nodes` (under tskit iterator contract) is True iff some node has exactly one child somewhere; the detectors agree without mask; masked rejection implies unmasked rejection; the wrapper `contains_unary_nodes(ts, skip_samples=True)` exempts exactly the nodes whose flags have bit 0 set, whatever the other flag bits. Models tied to the numba kernel / Python detector by exact correspondence on serialised tskit tables; date() rejection behaviour checked by oracle. Full for the detectors; the wiring date() -> detector is by oracle only.',
     note='Lean kernel + {propext, Classical.choice, Quot.sound}; sampled exact correspondence; tskit trees()/edge_diffs()/indexes by contract (index sortedness checked per input)',
     technique='loop-invariant rule for the shared insertion/removal sweep + exact model/implementation correspondence',
     ref='§3 C30',
@@ -32,10 +34,14 @@ ASSUMPTIONS = [
 UNARY_MSG = "unary"
 
 
+def sample_bit(ts):
+    """NODE_IS_SAMPLE is bit 0 of the flags word; no other bit makes a node a sample."""
+    return (ts.nodes_flags.astype(np.int64) & 1).astype(bool)
+
+
 def masks_for(rng, ts):
     n = ts.num_nodes
-    smask = np.zeros(n, dtype=bool)
-    smask[list(ts.samples())] = True
+    smask = sample_bit(ts)
     out = [("samples", smask), ("none", np.zeros(n, dtype=bool))]
     m, mode = sc.random_mask(rng, ts)
     out.append(("random-" + mode, m))
@@ -48,13 +54,21 @@ def kernel_cases(ctx, n_inputs, stream, res, stats):
     from tsdate.util import contains_unary_nodes
     rng = ctx.rng(stream)
     items, text = [], []
+    inputs = []
     for _ in range(n_inputs):
-        if rng.random() < 0.4:
+        r = rng.random()
+        if r < 0.35:
             ts, info = sc.gen_single_event(rng)
+        elif r < 0.45:
+            ts, info = sc.gen_full_arg(rng)
         else:
             ts, info = sc.gen_input(rng, unary_bias=0.45)
         if ts.num_edges == 0:
             continue
+        if rng.random() < 0.5:
+            ts, fmode = sc.add_flag_bits(ts, rng)
+            info["fired"] = list(info["fired"]) + [f"flag_bits_{fmode}"]
+        inputs.append(ts)
         for f in info["fired"]:
             stats["fired"][f] = stats["fired"].get(f, 0) + 1
         tb0 = sc.tables_of(ts)
@@ -62,7 +76,45 @@ def kernel_cases(ctx, n_inputs, stream, res, stats):
             tb = sc.shuffle_ties(rng, tb0) if rng.random() < 0.3 else tb0
             items.append((ts, tb, mname, mask, tb is not tb0))
             text.append(sc.encode_unary(len(items) - 1, tb, mask))
+    # the wrapper util.contains_unary_nodes(ts, skip_samples): flags column -> Boolean
+    wrap = []
+    for ts in inputs:
+        tb = sc.tables_of(ts)
+        for skip in (True, False):
+            wrap.append((ts, tb, skip))
+            text.append(sc.encode_unary_wrapper(len(items) + len(wrap) - 1, tb, skip))
     model = sc.run_model("".join(text))
+    for j, (ts, tb, skip) in enumerate(wrap):
+        res.evaluations += 1
+        m = model.get(len(items) + j)
+        impl = bool(contains_unary_nodes(ts, skip_samples=skip))
+        unary_nodes = sc.naive_unary_nodes(ts)
+        sb = sample_bit(ts)
+        naive = bool(unary_nodes - (set(int(u) for u in np.where(sb)[0]) if skip else set()))
+        other_bits = bool(np.any(ts.nodes_flags.astype(np.int64) & ~1))
+        replay = dict(kind="unaryw", ts=gen.ts_to_jsonable(ts), skip=bool(skip))
+        stats["wrapper"][f"skip={skip}:{impl}"] = stats["wrapper"].get(f"skip={skip}:{impl}", 0) + 1
+        if other_bits:
+            stats["wrapper_other_flag_bits"] += 1
+            flagged_unary = [u for u in unary_nodes if not sb[u] and (int(ts.nodes_flags[u]) & ~1)]
+            if flagged_unary and len(flagged_unary) == len([u for u in unary_nodes if not sb[u]]):
+                stats["wrapper_all_unary_nonsamples_flagged"] += 1
+        if m is None:
+            res.corr_failures.append(Violation("unary-wrapper-model-bad-op", "Lean wrapper model rejected a tskit input", replay, "B"))
+        elif m["contains"] != impl:
+            res.corr_failures.append(Violation(
+                "unary-wrapper-model-differs",
+                f"contains_unary_nodes(ts, skip_samples={skip})={impl} but the Lean wrapper model (mask = sample bit of "
+                f"flags)={m['contains']} (other flag bits present: {other_bits})", replay, "B"))
+        if impl != naive:
+            kind = "wrapper-misses-unary-nonsample" if naive else "wrapper-false-alarm"
+            if naive and other_bits:
+                kind = "wrapper-exempts-node-with-other-flag-bits"
+            res.violations.append(Violation(kind, f"contains_unary_nodes(ts, skip_samples={skip})={impl}, naive scan with the "
+                                            f"sample bit={naive}; unary nodes {sorted(unary_nodes)[:6]} with flags "
+                                            f"{[int(ts.nodes_flags[u]) for u in sorted(unary_nodes)[:6]]}", replay))
+        if other_bits and ts.num_trees > 1:
+            res.nontrivial.add(common.canon_key([replay["ts"]["edges"], replay["ts"]["nodes"]["flags"], skip, "w"]))
     naive_cache = {}
     for i, (ts, tb, mname, mask, shuffled) in enumerate(items):
         res.evaluations += 1
@@ -136,7 +188,10 @@ def date_cases(ctx, n, stream, res, stats):
                 ts, k = sc.sample_unary(ts, rng)
         if ts.num_mutations == 0:
             continue
-        samples = set(int(u) for u in ts.samples())
+        if rng.random() < 0.5:
+            ts, fmode = sc.add_flag_bits(ts, rng, mode="unary")
+            mode = mode + "+flag_bits"
+        samples = set(int(u) for u in np.where(sample_bit(ts))[0])
         unary = sc.naive_unary_nodes(ts)
         unary_nonsample = unary - samples
         method = str(rng.choice(["variational_gamma", "inside_outside", "maximization"]))
@@ -173,7 +228,8 @@ def date_cases(ctx, n, stream, res, stats):
 
 
 def _stats():
-    return dict(fired={}, hyp=dict(valid=0, nodes_below=0, n=0), result={}, mask_matters=0, date={})
+    return dict(fired={}, hyp=dict(valid=0, nodes_below=0, n=0), result={}, mask_matters=0, date={}, wrapper={},
+                wrapper_other_flag_bits=0, wrapper_all_unary_nonsamples_flagged=0)
 
 
 def run(ctx):
@@ -184,8 +240,10 @@ def run(ctx):
     kernel_cases(ctx, ctx.n(55, 1000), 1, res, stats)
     date_cases(ctx, ctx.n(18, 300), 2, res, stats)
     res.rule = ("B/C: tskit tree sequences (recombination, polytomies, gaps, flanks, historical and internal samples, "
-                "keep_unary simplification, dead-end branches, sample nodes that are unary, non-integer coordinates; 40% clean "
-                "simulations with a single truncated edge = exactly one unary event, by edge removal or by edge insertion) x "
+                "keep_unary simplification, dead-end branches, sample nodes that are unary, non-integer coordinates; 35% clean "
+                "simulations with a single truncated edge = exactly one unary event, by edge removal or by edge insertion; "
+                "10% msprime full ARGs; on half of the inputs extra flag bits 1<<16..1<<20, 1<<30, 2 on the unary nodes / on "
+                "random nodes incl. samples) x "
                 "3 masks (samples / none / random) x (tskit indexes | tie-shuffled valid indexes): kernel, wrapper, "
                 "iterator detector and Lean models compared exactly, and against a naive scan of every tree; date() with "
                 "allow_unary=False over 3 methods. Non-trivial = more than one tree and >= 3 edges (kernel cases) or a "
@@ -213,12 +271,24 @@ def replay(ctx, payload):
     if d["kind"] == "date":
         r = dating.run_date(ts, method=d["method"], **d["kw"])
         unary = sc.naive_unary_nodes(ts)
-        samples = set(int(u) for u in ts.samples())
+        samples = set(int(u) for u in np.where(sample_bit(ts))[0])
         print("date():", "returned" if r["ok"] else f"raised {r['exc']}: {r['msg']}")
         print("naive scan: unary nodes", sorted(unary), "non-sample", sorted(unary - samples))
         rejected = (not r["ok"]) and UNARY_MSG in r["msg"].lower()
         expect = bool(unary - samples) if d["method"] == "variational_gamma" else bool(unary)
         return rejected == expect or (not r["ok"] and not rejected)
+    if d["kind"] == "unaryw":
+        from tsdate.util import contains_unary_nodes
+        tb = sc.tables_of(ts)
+        impl = bool(contains_unary_nodes(ts, skip_samples=d["skip"]))
+        m = sc.run_model(sc.encode_unary_wrapper(0, tb, d["skip"])).get(0)
+        unary = sc.naive_unary_nodes(ts)
+        sb = sample_bit(ts)
+        naive = bool(unary - (set(int(u) for u in np.where(sb)[0]) if d["skip"] else set()))
+        print(f"implementation: contains_unary_nodes(ts, skip_samples={d['skip']}) =", impl)
+        print("model         :", m)
+        print("naive scan    :", naive, " unary nodes", sorted(unary), "flags", [int(ts.nodes_flags[u]) for u in sorted(unary)])
+        return m is not None and impl == naive == m["contains"]
     tb = sc.tables_of(ts)
     tb["ins"] = np.array(d["ins"], dtype=np.int32)
     tb["rem"] = np.array(d["rem"], dtype=np.int32)
